@@ -54,6 +54,72 @@ Lemma swarm_of_announce a clock sp :
   o_sw (g_announce a clock (sp !! (a_ih a, a_v6 a))).
 Proof. unfold swarm_of, sm_get. rewrite announce_lookup, decide_True by done. done. Qed.
 
+(* ---- the membership updates of two announces of DIFFERENT peers (or on different swarms) commute: whatever order their
+   post-response processing runs in - the frontends start it in a goroutine per request - every swarm ends up the same.
+   (The drivers rely on it where the order is not under their control; C04 allows either order.) *)
+Definition f_announce (a : ann) (clock : Z) (sw : swarm) : swarm :=
+  match a_event a with
+  | EvStopped => {| seeders := delete (a_key a) (seeders sw); leechers := delete (a_key a) (leechers sw) |}
+  | EvCompleted => {| seeders := <[a_key a := clock]> (seeders sw); leechers := delete (a_key a) (leechers sw) |}
+  | _ => if a_left a =? 0 then {| seeders := <[a_key a := clock]> (seeders sw); leechers := leechers sw |}
+         else {| seeders := seeders sw; leechers := <[a_key a := clock]> (leechers sw) |}
+  end.
+
+Lemma swarm_eq (x y : swarm) : seeders x = seeders y → leechers x = leechers y → x = y.
+Proof. destruct x, y; cbn; by intros -> ->. Qed.
+Lemma o_sw_norm sw : o_sw (norm sw) = sw.
+Proof.
+  unfold norm. destruct (swarm_empty sw) eqn:E; [|done]. cbn. unfold swarm_empty in E.
+  apply andb_true_iff in E as [E1 E2]. apply Nat.eqb_eq in E1, E2.
+  apply map_size_empty_iff in E1, E2. by apply swarm_eq.
+Qed.
+Lemma o_sw_del_seeder pk o : o_sw (g_del_seeder pk o) = {| seeders := delete pk (seeders (o_sw o)); leechers := leechers (o_sw o) |}.
+Proof.
+  unfold g_del_seeder. destruct (has_seeder pk o) eqn:Hs; [apply o_sw_norm|].
+  apply swarm_eq; cbn; [|done]. symmetry. apply delete_notin.
+  destruct o as [sw|]; cbn in *; [|done]. apply bool_decide_eq_false in Hs. by apply eq_None_not_Some.
+Qed.
+Lemma o_sw_del_leecher pk o : o_sw (g_del_leecher pk o) = {| seeders := seeders (o_sw o); leechers := delete pk (leechers (o_sw o)) |}.
+Proof.
+  unfold g_del_leecher. destruct (has_leecher pk o) eqn:Hs; [apply o_sw_norm|].
+  apply swarm_eq; cbn; [done|]. symmetry. apply delete_notin.
+  destruct o as [sw|]; cbn in *; [|done]. apply bool_decide_eq_false in Hs. by apply eq_None_not_Some.
+Qed.
+Lemma o_sw_announce a clock o : o_sw (g_announce a clock o) = f_announce a clock (o_sw o).
+Proof.
+  unfold g_announce, f_announce. destruct (a_event a); try (destruct (a_left a =? 0)); try reflexivity.
+  all: rewrite o_sw_del_leecher, o_sw_del_seeder; reflexivity.
+Qed.
+
+Lemma f_announce_commute a1 a2 clock sw : a_key a1 ≠ a_key a2 →
+  f_announce a1 clock (f_announce a2 clock sw) = f_announce a2 clock (f_announce a1 clock sw).
+Proof.
+  intros Hk. unfold f_announce.
+  destruct (a_event a1), (a_event a2); try destruct (a_left a1 =? 0); try destruct (a_left a2 =? 0);
+    apply swarm_eq; cbn;
+    rewrite ?(insert_commute _ (a_key a1) (a_key a2)) by done;
+    rewrite ?(delete_commute _ (a_key a1) (a_key a2));
+    rewrite ?(delete_insert_ne _ (a_key a1) (a_key a2)) by done;
+    rewrite ?(delete_insert_ne _ (a_key a2) (a_key a1)) by done; done.
+Qed.
+
+Theorem announce_updates_commute a1 a2 clock sp ih v6 :
+  (a_ih a1, a_v6 a1, a_key a1) ≠ (a_ih a2, a_v6 a2, a_key a2) →
+  swarm_of (swarm_interaction spec_if a1 clock (swarm_interaction spec_if a2 clock sp)) ih v6 =
+  swarm_of (swarm_interaction spec_if a2 clock (swarm_interaction spec_if a1 clock sp)) ih v6.
+Proof.
+  intros Hne. unfold swarm_of, sm_get. rewrite !announce_lookup.
+  destruct (decide ((a_ih a1, a_v6 a1) = (a_ih a2, a_v6 a2))) as [Hs|Hd].
+  - (* the same swarm: different peers *)
+    assert (Hk : a_key a1 ≠ a_key a2) by (intros Hk; apply Hne; injection Hs as -> ->; by rewrite Hk).
+    rewrite (decide_True (P := (a_ih a2, a_v6 a2) = (a_ih a1, a_v6 a1))) by done.
+    rewrite Hs. destruct (decide ((ih, v6) = (a_ih a2, a_v6 a2))); [|done].
+    change (default empty_swarm ?o) with (o_sw o). rewrite !o_sw_announce. by apply f_announce_commute.
+  - rewrite (decide_False (P := (a_ih a2, a_v6 a2) = (a_ih a1, a_v6 a1))) by (intros E; by apply Hd).
+    destruct (decide ((ih, v6) = (a_ih a1, a_v6 a1))) as [E1|N1], (decide ((ih, v6) = (a_ih a2, a_v6 a2))) as [E2|N2];
+      try done. exfalso. apply Hd. congruence.
+Qed.
+
 (* announcing with nothing left lists the peer as a seeder (lifetime restarted) *)
 Theorem seeder_listed a clock sp : plain_event (a_event a) → a_left a = 0 →
   seeders (swarm_of (swarm_interaction spec_if a clock sp) (a_ih a) (a_v6 a)) !! a_key a = Some clock.
